@@ -9,18 +9,18 @@
        The check evaluates the checker inside Coq on the set of covers
        returned by the real cover_enum.minimize.
    (2) Model of cover_enum.minimize (L5Cover/CoverEnum.v) AS REPAIRED by
-       fixes/F2.patch and fixes/F17.patch: [C10_enum_exact], for ALL instances and ALL pick
-       functions, whenever the model returns a set of covers it is exactly
-       the set of all minimum covers by primes (exhaustive branch and bound,
-       reduction steps, the two enumerations); that the model does return
-       (no assertion of the code fails, the recursion ends) is proved on the
-       finite domains of the property's quantifier by computation
-       ([_bounded]) and stated for all instances with a non-empty f as
-       [C10_total] (NOT proved); [C10_full] = [C10_total] + exactness.  For
+       fixes/F2.patch and fixes/F17.patch: [C10_full], for ALL instances with
+       a non-empty f and ALL pick functions (that pick from every non-empty
+       set) the model returns a set of covers (no assertion of the code
+       fails, the recursion ends within the fuel: [C10_total],
+       [C10_ccfr_returns]) and it is exactly the set of all minimum covers by
+       primes ([C10_enum_exact]: exhaustive branch and bound, reduction
+       steps, the two enumerations); the same on the finite domains of the
+       property's quantifier by computation ([_bounded], independent
+       evidence).  For f = FALSE the code fails an assertion
+       ([C10_refuted_empty_f]; the library requires f to be non-empty).  For
        the code before fixes/F17.patch totality is refuted on the level of
        covering problems ([C10_refuted_total_xy], finding F17).
-       For f = FALSE the code fails an assertion ([C10_refuted_empty_f];
-       the library requires f to be non-empty).
    (3) Finding F2 (unrepaired code): Context.pick_iter / Context.count are
        called without care_vars, so a set of boxes that is a cylinder along a
        parameter is enumerated/counted as fewer elements and the assertions
@@ -32,7 +32,8 @@ From Omega Require Import L5Cover.Boxes L5Cover.BoxesProofs L5Cover.MinCover
   L5Cover.MinCoverBounded L5Cover.MinCoverBounded4 L5Cover.CoverEnumBounded4
   L5Cover.CoverEnumOld L5Cover.CoverEnumRefuted L5Cover.CyclicCoreOpt
   L5Cover.CoverEnumLemmas L5Cover.CoverEnumStep L5Cover.CoverEnumExact
-  L5Cover.MinCoverTotal L5Cover.CoverEnumOldLeaf L5Cover.CoverEnumRefutedTotal.
+  L5Cover.MinCoverTotal L5Cover.CoverEnumOldLeaf L5Cover.CoverEnumRefutedTotal
+  L5Cover.CoverEnumTotalLemmas L5Cover.CoverEnumTotal.
 Open Scope Z_scope.
 
 (* what C10 demands of an enumeration procedure: it returns (no error) a set
@@ -156,29 +157,59 @@ Proof.
   exact (proj1 (ccfr_exact rs pick Hp fuel X Y pc ub F u H HX HY HA)).
 Qed.
 
-(* what remains of the unbounded statement: the model returns (no assertion
-   of cover_enum.py fails and the recursion ends within the fuel) on every
-   instance with a non-empty f: NOT proved (proved on the finite domains
-   above by computation) *)
-Definition C10_total : Prop :=
+(* ---- (2'') totality: on every instance with a non-empty f, for every pick
+   function that returns an element of every non-empty set (as dd's pick
+   does), the model of the repaired cover_enum.minimize RETURNS: none of the
+   assertions of cover_enum.py fails and the recursion ends within the fuel
+   of the model.  ([f] non-empty is the library's precondition:
+   cover_enum.minimize asserts on f = FALSE, see C10_refuted_empty_f.) *)
+Theorem C10_total :
   forall pick, (forall s b, pick s = Some b -> In b s) ->
+  (forall s, pick s = None -> s = []) ->
   forall rs f care, (exists p, in_ranges rs p /\ f p = true) ->
   exists R, enum_minimize rs pick f care = inl R.
+Proof. intros pick Hok Htot rs f care Hf. exact (enum_minimize_total rs pick f care Hok Htot Hf). Qed.
 
-(* the unbounded statement; [f] non-empty is the library's precondition
-   (cover_enum.minimize asserts on f = FALSE, see C10_refuted_empty_f) *)
-Definition C10_full : Prop :=
+(* the invariant behind it: every call of _cyclic_core_fixpoint_recursive on
+   a feasible node (small enough for the fuel) returns, the upper bound does
+   not increase, "nothing returned" means that every cover of the node costs
+   more than the bound, and the returned covers are duplicate-free MINIMUM
+   covers of the node (this is what the assertions of the two enumerations
+   need, and what failed before fixes/F17.patch) *)
+Theorem C10_ccfr_returns : forall rs pick,
+  (forall s b, pick s = Some b -> In b s) ->
+  (forall s, pick s = None -> s = []) ->
+  forall n X Y pc ub,
+  feasible rs X Y -> antichain Y -> X <> [] ->
+  (2 * (length X + length Y) + 1 < n)%nat ->
+  exists F u, ccfr rs pick n X Y pc ub = inl (F, u) /\
+    (u <= ub)%nat /\
+    (F = [] -> u = ub /\ forall C, incl C Y -> cov C X -> (ub < pc + length C)%nat) /\
+    (forall c, In c F -> mincover X Y c /\ NoDup c /\ (pc + length c <= u)%nat).
+Proof.
+  intros rs pick Hok Htot n X Y pc ub HF HA HX Hn.
+  apply (ccfr_total rs pick Hok Htot n X Y pc ub 1%nat HF HA HX); [intros Hc; discriminate | exact Hn].
+Qed.
+
+(* C10, the unbounded statement: on every instance with a non-empty f the
+   model returns a set of covers, and it is exactly the set of all minimum
+   covers of f by primes of f \/ ~care *)
+Theorem C10_full :
   forall pick, (forall s b, pick s = Some b -> In b s) ->
+  (forall s, pick s = None -> s = []) ->
   forall rs f care, (exists p, in_ranges rs p /\ f p = true) ->
   exists R, enum_minimize rs pick f care = inl R /\
             all_min_prime_covers rs f care R.
-
-(* exactness is proved, so the unbounded statement is reduced to C10_total *)
-Theorem C10_full_from_total : C10_total -> C10_full.
 Proof.
-  intros HT pick Hp rs f care Hf. destruct (HT pick Hp rs f care Hf) as [R HR].
-  exists R. split; [exact HR | apply (enum_exact rs pick f care R Hp HR)].
+  intros pick Hok Htot rs f care Hf.
+  destruct (enum_minimize_total rs pick f care Hok Htot Hf) as [R HR].
+  exists R. split; [exact HR | apply (enum_exact rs pick f care R Hok HR)].
 Qed.
+
+(* non-vacuity of the hypotheses on pick *)
+Example C10_pick_first_hypotheses :
+  (forall s b, pick_first s = Some b -> In b s) /\ (forall s, pick_first s = None -> s = []).
+Proof. split; [exact pick_first_ok | exact pick_first_total]. Qed.
 
 (* regression for finding F17 (repaired by fixes/F17.patch): with the
    unrepaired leaf of cover_enum._traverse_exhaustive (CoverEnumOldLeaf.v: a
@@ -268,6 +299,8 @@ Print Assumptions C10_bounded_4.
 Print Assumptions C10_enum_exact.
 Print Assumptions C10_enum_xy_complete.
 Print Assumptions C10_ccfr_invariants.
-Print Assumptions C10_full_from_total.
+Print Assumptions C10_total.
+Print Assumptions C10_ccfr_returns.
+Print Assumptions C10_full.
 Print Assumptions C10_refuted_total_xy.
 Print Assumptions C10_refuted_unrepaired.
